@@ -483,6 +483,16 @@ func run(c *xs.Ctx, r *xs.Result) {
 			only = &cs
 		}
 	}
+	if c.Replay != nil {
+		var sc storeCase
+		if err := json.Unmarshal(c.Replay, &sc); err == nil && sc.Mode == "store" {
+			storeLevel(c, r, &sc)
+			return
+		}
+	}
+	if only == nil && (c.NShards <= 1 || c.Shard == c.NShards-1) {
+		storeLevel(c, r, nil)
+	}
 	idx := 0
 	for _, sp := range specs("thorough") {
 		inTier := false
